@@ -89,6 +89,29 @@ theorem C08_accessor_reads_layout_free {α} (m₁ m₂ : Int → α) (v₁ v₂ 
     exact he k hk
   · exact he k hk
 
+/-- **The iterator sequence *is* the logical content.** Reading a whole array through the iterator, or
+through `at_flat` at `0 … size-1`, yields exactly the C-order list of its logical elements — for every
+well-formed view. (`iterAddrs`, printed by the driver and compared with numpy and with the compiled
+`iterator_base`, is the address version of the same statement.) -/
+theorem C08_iterator_sequence_is_logical {α} (m : Int → α) (v : View) (wf : v.WF) :
+    (List.range (shapeSize v.shape)).map (readIter m v) = logical m v ∧
+    (List.range (shapeSize v.shape)).map (readAtFlat m v) = logical m v ∧
+    iterAddrs v = (List.range (shapeSize v.shape)).map (fun k => v.addr (unravel v.shape k)) := by
+  refine ⟨?_, ?_, ?_⟩
+  · apply List.map_congr_left
+    intro k hk
+    have hk' : k < shapeSize v.shape := List.mem_range.1 hk
+    simp only [readIter]
+    rw [(C08_iterator_visits_C_order v wf.len k hk').1]
+  · apply List.map_congr_left
+    intro k hk
+    have hk' : k < shapeSize v.shape := List.mem_range.1 hk
+    simp only [readAtFlat]
+    rw [C08_atFlat_eq v wf k hk']
+  · apply List.map_congr_left
+    intro k hk
+    exact (C08_iterator_visits_C_order v wf.len k (List.mem_range.1 hk)).1
+
 /-- **Kernel form.** Any kernel `K` that consumes an array only as the sequence of values the iterator
 (or `at_flat`) delivers returns the same result for every memory layout of the same logical array. -/
 theorem C08_kernel_layout_free {α β} (m₁ m₂ : Int → α) (v₁ v₂ : View) (wf₁ : v₁.WF) (wf₂ : v₂.WF)
